@@ -27,7 +27,10 @@ ASSUMPTIONS = [
     'behave as modelled (validated by the correspondence, not proved)',
     'flat weighted-list model of spaces: <x,y> = sum w_i x_i y_i (checked per generated space against space.inner)']
 TRUSTED = ['C07/Model.v hand-written value-level model of every factory / binding (tied by the correspondence)',
-           'harness/c07.py tree builder (same tree -> ODL object and Coq term)']
+           'harness/c07.py tree builder (same tree -> ODL object and Coq term; it applies the scalar merging of '
+           'OperatorLeftScalarMult.__init__ to the Coq term)',
+           'values of the KL functionals are not executable (ln): their theorems are stated over R-level definitions and only '
+           'their proximal formulas are compared with the code']
 
 
 # ------------------------------------------------------------------ spaces
@@ -1173,21 +1176,22 @@ def _leaves(t):
 
 LEVEL_TEXT = ('Proof: for the value-level model of proximal_operators.py / default_functionals.py / functional.py, Coq proves for '
               'EVERY functional expression tree (any depth: left/right scaling, scalar sum, translation, quadratic perturbation / '
-              'Bregman distance, separable sums) over the leaves L1, L2, L2^2, constant, box/non-negativity, {0}, unit balls '
-              'p=inf and p=2, Huber, group-L1 (exp 1) and its ball (exp inf), every size, every positive weight vector (rn, '
-              'weighted rn, uniform_discr, product spaces) and every admissible step (scalar, per-point, per-component) that '
-              'f.proximal(sigma)(x) returns a point p with f(p) finite satisfying the variational inequality '
+              'Bregman distance, separable sums) over ALL 14 modelled leaf classes (L1, L2, L2^2, L-infinity norms, constant, '
+              'box/non-negativity, {0}, unit balls p=inf/2/1, Huber, simplex, group-L1 and group unit ball with pointwise '
+              'exponent 1/2/inf), every size, every admissible weight vector (any positive weights; uniform resp. unit weights for '
+              'the sort-based simplex / l1-ball / L-infinity leaves, where the code is proved WRONG otherwise) and every admissible '
+              'step (scalar, per-point, per-component) that f.proximal(sigma)(x) returns a point p with f(p) finite satisfying '
               'f(z) >= f(p) + <x-p, z-p>/sigma for all z -- hence p is the unique minimiser of f(z)+||z-x||^2/(2 sigma) in the '
               "functional's own norm, the map is firmly non-expansive, indicator proximals land in the set and are idempotent. "
               'The rules translation / left scaling / argument scaling / quadratic perturbation / separable sum / convex '
-              'conjugation (Moreau, with conjugates as least upper bounds) / composition with A A^T = mu I are proved for '
-              'ARBITRARY functionals (no convexity assumption), and the factories with lam and g are proved directly. '
-              'Sort-based projections (simplex, l1 ball, L-infinity prox), pointwise-2-norm group functionals and the KL family '
-              'are modelled and tied by the correspondence but only partially proved; nuclear norm is probe-only.')
+              'conjugation (Moreau, conjugates as least upper bounds) / composition with A A^T = mu I are proved for ARBITRARY '
+              'functionals (no convexity assumption); the factories with lam and g, the insertion-sort simplex projection, '
+              'the block soft thresholds and the KL closed forms (with ln) are proved for all sizes. Nuclear norm and KL cross '
+              'entropy (Lambert W) are probe-only.')
 LEVEL_NOTE = ('The model is hand-written and tied to /repo on every run by an in-Coq correspondence (f(x) and f.proximal(s)(x) '
               'on random trees built through the Functional API, plus the factories with lam/g/step kinds/rules), tolerance '
               '1e-9; theorems are about exact real arithmetic (the 1e-14 safety factors are modelled as 1; rounding is out '
-              'of scope). 13 recorded findings (findings/C07.json) are outside the proved domain and are reported as '
+              'of scope). 12 recorded findings (findings/C07.json) are outside the proved domain and are reported as '
               'KNOWN-FINDING by probes that evaluate the optimality inequality on the real code. Axioms: classical reals + '
               'functional extensionality as printed.')
 TECHNIQUE = ('Coq: variational-inequality invariant proved by structural induction over functional trees and list induction '
